@@ -17,7 +17,8 @@ RULE = ('cases = (filter, measure, threshold, table) driven through filter_table
         'filter_candset of the real filters: TT tight tables (every size pair <= N with the least '
         'qualifying overlap; pair-level order always ranks shared tokens last, table-level order too '
         'by construction), OV overlap-size tables, ED exhaustive string universes and mutation '
-        'neighbourhoods for EDIT_DISTANCE, AR every arrangement of small sets, RT random hostile '
+        'neighbourhoods for EDIT_DISTANCE, AR every arrangement of small sets, HUGE records of 300 to '
+        '140 000 tokens, RT random hostile '
         'tables. Non-trivial = the model finds at least one required pair; distinct = distinct '
         '(workload, filter, measure, threshold, api, table digest).')
 ASSUMPTIONS = c01.ASSUMPTIONS + ['set-returning tokenizers for set measures, bag q-gram tokenizers '
